@@ -219,6 +219,14 @@ fn position_check(out: &mut Out, case: &dyn Fn() -> Value, prefix: usize, b0: Op
     if prefix == 0 {
         return;
     }
+    // Whole tables (name, CFF, CFF2) are always serialised into a buffer of their own by the library (FontBuilder,
+    // write::buffer) and their writers record table-absolute offsets from ctxt.bytes_written(); writing them behind other
+    // bytes is outside what the property speaks about ("serialising a value and parsing the bytes"). The position check
+    // is kept for the structures the library itself embeds in larger ones (cmap sub-tables, glyph records, DICTs,
+    // INDEXes, ItemVariationStore, ...).
+    if matches!(out.name, "name" | "name-owned" | "cff" | "cff2") {
+        return;
+    }
     match wp() {
         Err(p) => out.panic("write", &p),
         Ok(Err(e)) => out.viol("output-depends-on-bytes-already-in-buffer", json!({"case": case(), "bytes_already_in_buffer": prefix, "refused": e})),
